@@ -120,6 +120,11 @@ ohaszero = z3.Function('ohaszero', OSeq, Bool)
 onormal = z3.Function('onormal', OSeq, Bool)          # every constraint: coefficients >= 0, op in {>=, ==}
 
 
+IArr = z3.ArraySort(Int, Int)
+iofarr = z3.Function('iofarr', IArr, Int, ISeq)        # the python list (array, length) as an abstract literal list
+arrsum = z3.Function('arrsum', IArr, Int, Int)         # sum of the first n entries (uninterpreted)
+nbrs = z3.Function('nbrs', Int, Int, ISeq)             # sorted neighbour list of vertex v in the abstract simple graph
+evar = z3.Function('evar', Int, Int, Int, Int)         # edge-variable group: the variable of edge {u, v}
 liftcls = z3.Function('liftcls', Int, Int, Int, Int, CSeq)   # [[-(yo+i), s*(xo+i)] for i in 1..k]: selector i picks copy i with sign s
 liftsem = z3.Function('liftsem', Asg, Int, Int, Bool, Bool)  # (a, v, k, pos): every true selector of variable v selects a copy whose value is pos
 yblock = z3.Function('yblock', Int, Int, ISeq)               # the k selector variables of original variable v (lifting layout)
@@ -169,7 +174,7 @@ FUNCS = dict(tlen=tlen, tcoef=tcoef, tlit=tlit, tunit=tunit, tnegc=tnegc, tset=t
              ilen=ilen, iget=iget, inil=inil, isnoc=isnoc, iapp=iapp, ineg=ineg, haszero=haszero,
              maxof=maxof, minof=minof, maxabs=maxabs, lit_true=lit_true, count=count, ctrue=ctrue,
              clen=clen, cget=cget, cnil=cnil, csnoc=csnoc, capp=capp, ctake=ctake, combs=combs, sat=sat,
-             cmaxabs=cmaxabs, pow2=pow2, chaszero=chaszero, psum=psum, card2=card2, isperm=isperm, sortedperm=sortedperm, invperm=invperm, imapsub=imapsub, zpos=zpos, mpos=mpos, rnbrs=rnbrs, apseq=apseq, negunits=negunits, idxcombs=idxcombs, iflip1=iflip1, iflips=iflips, neqprefix=neqprefix, signvecs=signvecs, sprod=sprod, smul=smul, pfilter=pfilter, liftcls=liftcls, liftsem=liftsem, yblock=yblock, implchain=implchain, ishift=ishift, preds=preds, outdeg=outdeg, gtopo=gtopo, gsinkok=gsinkok,
+             cmaxabs=cmaxabs, pow2=pow2, chaszero=chaszero, psum=psum, card2=card2, isperm=isperm, sortedperm=sortedperm, invperm=invperm, imapsub=imapsub, zpos=zpos, mpos=mpos, rnbrs=rnbrs, apseq=apseq, negunits=negunits, idxcombs=idxcombs, iflip1=iflip1, iflips=iflips, neqprefix=neqprefix, signvecs=signvecs, sprod=sprod, smul=smul, pfilter=pfilter, iofarr=iofarr, nbrs=nbrs, evar=evar, liftcls=liftcls, liftsem=liftsem, yblock=yblock, implchain=implchain, ishift=ishift, preds=preds, outdeg=outdeg, gtopo=gtopo, gsinkok=gsinkok,
              ev3=ev3, dropc=dropc, dterms=dterms, dcons=dcons, tevent=tevent, cevent=cevent, dlits=dlits, dclauses=dclauses, levent=levent, gad=gad, cdist_tab=cdist_tab, cdist=cdist, cdistall=cdistall, cind=cind, satind=satind, aind=aind)
 
 
@@ -323,6 +328,13 @@ def _on_terms(terms_by_decl):
     for (s, k) in terms_by_decl.get('combs', []):
         out.append(cmaxabs(combs(s, k)) <= maxabs(s))
         out.append(z3.Implies(z3.Not(haszero(s)), z3.Not(chaszero(combs(s, k)))))
+    for (A, n) in terms_by_decl.get('iofarr', []):
+        out.append(z3.Implies(n >= 0, ilen(iofarr(A, n)) == n))                          # Seq.lean iofarr_len
+    for (sq, i) in terms_by_decl.get('iget', []):
+        if z3.is_app(sq) and sq.decl().name() == 'iofarr':
+            A, n = sq.children()
+            r = z3.Select(A, i)
+            out.append(z3.Implies(z3.And(0 <= i, i < n), iget(sq, i) == (z3.simplify(r) if z3.is_quantifier(A) else r)))    # Seq.lean iofarr_get
     for (v, k) in terms_by_decl.get('yblock', []):
         out.append(yblock(v, k) == apseq((v - 1) * 2 * k + k + 1, k))                     # definition (lifting layout)
     for (xo, yo, k, sg) in terms_by_decl.get('liftcls', []):
